@@ -77,13 +77,30 @@ def run_probe_corr(ck, ref, probe, env):
 
 # ------------------------------------------------------------------------------------------ (B) session catalogue
 def oracle_for(item):
-    """Model oracle line for a module whose standalone observation is known: the whole stdout as one chunk."""
+    """Model oracle line for a module whose standalone observation is known: the whole stdout as one chunk, main's int result
+    (= the standalone exit status of a normal end) and whether the program makes extern calls."""
     rc, out, err = item['obs']
-    if rc == 0 and err == b'':
-        return 'ran none ' + hx(out)
+    ffi = '1' if item['kind'] == 'ffi' else '0'
+    if 0 <= rc <= 255 and err == b'':
+        return 'ranx none %x %s %s' % (rc, ffi, hx(out))
     if rc == 1 and err.startswith(b'Runtime error: ') and err.endswith(b'\n'):
-        return 'ran %s %s' % (hx(err[:-1]), hx(out))
+        return 'ranx %s 0 %s %s' % (hx(err[:-1]), ffi, hx(out))
     return None
+
+
+KEY_EXIT = 'c18:wellformed:main-result-exit-status'
+
+
+def exit_only(obs, exp):
+    """The client saw everything standalone shows except that the exit status is 0 instead of main's result."""
+    return obs[1:] == exp[1:] and obs[0] == 0 and exp[0] != 0
+
+
+def fail_exit(ck, p, obs, tag):
+    ck.fail(KEY_EXIT, 'well-formed client of a program whose main returns %d gets exit status %d from the daemon (standalone nano_vm: %d); output and stderr agree' % (
+                p['obs'][0], obs[0], p['obs'][0]),
+            dict(case='exit-status', program=p['src'], engine=tag, expected=dict(exit=p['obs'][0]), observed=dict(exit=obs[0]),
+                 model='vmd_exit_from_main=%s standalone_exit_from_main=%s' % (ck.extra.get('facts', {}).get('exitmain'), ck.extra.get('facts', {}).get('saexitmain'))))
 
 
 def catalogue(ck, progs):
@@ -186,7 +203,7 @@ def model_reply(ref, sessions, actives):
     res = []
     for o in out:
         f = o.split()
-        res.append(dict(sent=bytes.fromhex(f[1]) if f[1] != '-' else b'', alive=f[3] == '1', active=f[5], shutdown=f[7] == '1'))
+        res.append(dict(sent=bytes.fromhex(f[1]) if f[1] != '-' else b'', alive=f[3] == '1', active=f[5], shutdown=f[7] == '1', sigign=f[9] == '1'))
     return res, lines
 
 
@@ -220,7 +237,9 @@ def check_session(ck, s, r, m, tag):
                              first_diff=next((i for i, (x, y) in enumerate(zip(a['out'], b_['out'])) if x != y), None)))
                 return 'diff'
             # property level, independent of the model: what the client shows equals the standalone observation
-            if V.expected_client_obs(a) != s['prog']['obs']:
+            if exit_only(V.expected_client_obs(a), s['prog']['obs']):
+                fail_exit(ck, s['prog'], V.expected_client_obs(a), tag)
+            elif V.expected_client_obs(a) != s['prog']['obs']:
                 ck.fail(key + ':standalone', 'exec session %s: client-visible result differs from standalone nano_vm' % s['name'],
                         dict(rep, expected=str(s['prog']['obs'])[:600], observed=str(V.expected_client_obs(a))[:600]))
                 return 'diff'
@@ -336,11 +355,12 @@ def run_live(ck, b, ref, progs, tag, bud, env_extra=None):
             tag, bud.phase, sum(1 for r in results if r is not None), len(S)))
     if not alive or not pong:
         # which session was it?  replay candidates one by one on fresh daemons (the search for the failing input)
-        culprit = find_culprit(ck, b, [s_ for s_, r_ in zip(S, results) if r_ is not None] if aborted else S, env_extra)
+        culprit = find_culprit(ck, b, [s_ for s_, r_ in zip(S, results) if r_ is not None] if aborted else S, env_extra, allS=S)
         ck.fail('c18:daemon-died:' + (culprit['name'] if culprit else 'unknown'),
                 'daemon %s after the session catalogue (exit status %s)' % ('died' if not alive else 'stopped answering PING', rc),
                 dict(base, observed='alive=%s pong=%s rc=%s' % (alive, pong, rc), stderr=err_text[-1500:],
-                     culprit=dict(name=culprit['name'], input_hex=culprit['data'].hex()[:4000], mode=culprit['mode'], read_limit=culprit['read_limit']) if culprit else None))
+                     culprit=dict(name=culprit['name'], input_hex=culprit['data'].hex()[:200000], mode=culprit['mode'], read_limit=culprit['read_limit'],
+                                  first_input_hex=culprit['first']['data'].hex()[:200000] if culprit.get('first') else None) if culprit else None))
         # everything that failed after the death is a consequence: report the death (with its culprit) only
         return dict(sessions=len(S), daemon_alive=alive, pong=pong, exit_status=rc,
                     culprit=culprit['name'] if culprit else None)
@@ -375,7 +395,9 @@ def run_live(ck, b, ref, progs, tag, bud, env_extra=None):
         ck.count(('sess', tag, s['name'], len(s['data'])), nontrivial=True)
     for p, obs, dt in wf_results + [(p, o, 0) for p, o in after]:
         ck.count(('wf', tag, p['name'], len(wf_results)), nontrivial=False)
-        if obs != p['obs']:
+        if exit_only(obs, p['obs']):
+            fail_exit(ck, p, obs, tag)
+        elif obs != p['obs']:
             an = V.client_anomaly(obs)
             ck.fail('c18:wellformed:' + p['name'], 'well-formed client of %s %s while bad sessions ran (standalone: exit %s, %d stdout bytes)' % (
                         p['name'], 'was never served (killed after the client timeout)' if an == 'hung' else 'got a result different from standalone', p['obs'][0], len(p['obs'][1])),
@@ -388,6 +410,34 @@ def run_live(ck, b, ref, progs, tag, bud, env_extra=None):
     return dict(sessions=len(S), sessions_run=sum(1 for r in results if r is not None), aborted=aborted,
                 behaviours={k: dict(run=v[0], agree=v[1]) for k, v in sorted(dist.items())},
                 wellformed_concurrent=len(wf_results), wellformed_after=len(after), idle_status=idle, daemon_alive=alive, pong=pong)
+
+
+def model_history(ref, sessions):
+    """Serve `sessions` = [(data, wb or None, oracle)] one after the other in the extracted model, threading the whole daemon state
+    (alive, count, SIGPIPE disposition).  Returns [dict(alive, active, sigign, sent)] = the state after each session."""
+    out = []
+    alive, active, ign = True, 0, None            # ign None: as set at start-up (generated fact)
+    for data, wb, oracle in sessions:
+        if not alive:
+            out.append(dict(alive=False, active=active, sigign=bool(ign), sent=b''))
+            continue
+        line = 'sess %s r %s %s %s %s' % ('r' if ign is None else ('1' if ign else '0'), ('-%x' % -active) if active < 0 else '%x' % active,
+                                          '-' if wb is None else str(wb), hx(data), oracle)
+        f = vlib.run_lines(V.nvref_cmd(ref), [line], timeout=300)[0].split()
+        alive = f[3] == '1'
+        active = int(('-0x' + f[5][1:]) if f[5].startswith('-') else '0x' + f[5], 16)
+        ign = f[9] == '1'
+        out.append(dict(alive=alive, active=active, sigign=ign, sent=bytes.fromhex(f[1]) if f[1] != '-' else b''))
+    return out
+
+
+def real_sigign(d):
+    """Is SIGPIPE ignored by the live daemon process?  (/proc/<pid>/status SigIgn, bit 13)"""
+    try:
+        m = d.sigign_mask()
+    except OSError:
+        return None
+    return None if m is None else bool(m & (1 << 12))
 
 
 def wait_status_reply(d, want, t=3.0):
@@ -433,6 +483,12 @@ def counter_tie(ck, b, ref, progs, bud, tag='nano_vmd(plain)'):
         counts.append(acc)
     m2 = vlib.run_lines(ref, ['sess r r %s - %s none' % (('-%x' % -c) if c < 0 else '%x' % c, V.frame(V.T_STATUS).hex()) for c in counts])
     want = [bytes.fromhex(o.split()[1]) for o in m2]
+    # the SIGPIPE disposition after each session, in the model (it changes only when some session-reachable call resets it)
+    signs, cur = [], None
+    for o in m1:
+        f = o.split()
+        cur = (f[9] == '1') if cur in (None, True) else False
+        signs.append(cur)
     bud.new_phase()
     rep = dict(sessions=0, agree=0, behaviours=sorted(set(s_['beh'] for s_ in S)))
     d = V.Daemon(b); d.start()
@@ -447,7 +503,7 @@ def counter_tie(ck, b, ref, progs, bud, tag='nano_vmd(plain)'):
                     dict(case='counter', behaviour='disconnect-before-header', name='connect-close', input_hex='', mode='abandon', expected_model=idle_reply,
                          observed_impl=(first or b'').hex(), engine=tag, theorem='C18_session_ends (count restored)'))
             S, want, counts = [], [], []          # every later STATUS would repeat the same drift
-        for s_, w, c in zip(S, want, counts):
+        for s_, w, c, sg in zip(S, want, counts, signs):
             if bud.exhausted() or not d.alive():
                 break
             try:
@@ -460,6 +516,14 @@ def counter_tie(ck, b, ref, progs, bud, tag='nano_vmd(plain)'):
                         dict(case='session', behaviour=s_['beh'], name=s_['name'], input_hex=s_['data'].hex()[:4000], mode=s_['mode'], read_limit=s_['read_limit'],
                              oracle=s_['oracle'][:200], hung=True, engine=tag, phase='sequential counter tie'))
             got = wait_status_reply(d, w)
+            rs = real_sigign(d)
+            if rs is not None and (rs != sg or rs is False):
+                ck.fail('c18:sigpipe:after:' + s_['name'], 'after session %s (%s) the daemon process %s SIGPIPE (SigIgn of /proc/<pid>/status), the model says it %s' % (
+                            s_['name'], s_['beh'], 'ignores' if rs else 'does NOT ignore', 'ignores it' if sg else 'does not'),
+                        dict(case='sigpipe', behaviour=s_['beh'], name=s_['name'], input_hex=s_['data'].hex()[:4000], mode=s_['mode'], read_limit=s_['read_limit'],
+                             oracle=s_['oracle'][:200], program=(s_['prog'] or {}).get('src'), expected_model=sg, observed_impl=rs, engine=tag,
+                             theorem='C18_no_session_resets_sigpipe / C18_daemon_survives (sigign stays true)'))
+            rep['sigign_checked'] = rep.get('sigign_checked', 0) + (rs is not None)
             rep['sessions'] += 1
             ck.count(('countertie', s_['name'], len(s_['data'])), nontrivial=True)
             if got == w:
@@ -475,6 +539,96 @@ def counter_tie(ck, b, ref, progs, bud, tag='nano_vmd(plain)'):
                 break            # every later STATUS would repeat the same drift
     finally:
         d.stop()
+    return rep
+
+
+def ffi_histories(ck, b, ref, progs, bud, wd, tag='nano_vmd(plain)'):
+    """Programs that make extern calls start and stop the FFI co-process inside the daemon (vm_ffi_cop_start / vm_ffi_cop_stop): the
+    process-wide SIGPIPE disposition must survive that.  Each history runs on a fresh daemon, one session at a time; after EVERY
+    session the process's real SIGPIPE disposition (SigIgn) and its liveness are compared with the extracted model serving the
+    same history; afterwards PING and a well-formed client must be served."""
+    ffis = [p for p in progs.items if p['kind'] == 'ffi']
+    small = next(p for p in progs.items if p['kind'] == 'lines')
+    chatty = progs.add(ck.rng, 'CHATTY', 'big', scale=4, ret='0')           # > 1 MB of output: the daemon is still writing when the client has gone
+    if not ffis:
+        raise RuntimeError('no ffi program generated')
+    F = lambda p: ('ffi:' + p['name'], V.frame(V.T_LOAD_EXEC, p['blob']), 'full', None, None, oracle_for(p), p)
+    HANG = ('hangup-while-printing:' + chatty['name'], V.frame(V.T_LOAD_EXEC, chatty['blob']), 'read_n', 9, 2, 'ranx none 0 0 6161 6161 6161 6161', None)
+    ABAN = ('abandon:' + small['name'], V.frame(V.T_LOAD_EXEC, small['blob']), 'abandon', None, 0, oracle_for(small), None)
+    PING = ('ping', V.frame(V.T_PING), 'full', None, None, 'none', None)
+    f0, f1 = ffis[0], ffis[-1]
+    hists = [('ffi-then-hangup', [F(f0), HANG]),
+             ('hangup-then-ffi', [HANG, F(f0), PING]),
+             ('ffi-ffi-then-hangup', [F(f0), F(f1), HANG]),
+             ('ffi-then-abandon-then-hangup', [F(f1), ABAN, HANG]),
+             ('hangup-ffi-hangup', [HANG, F(f0), HANG])]
+    rep = {}
+    for hname, H in hists:
+        if bud.exhausted():
+            break
+        model = model_history(ref, [(data, wb, orc) for (_, data, _, _, wb, orc, _) in H])
+        steps = []
+        d = V.Daemon(b); d.start()
+        try:
+            for (name, data, mode, rl, wb, orc, prog), m in zip(H, model):
+                try:
+                    r = V.raw_session(d.sock, data, mode=mode, read_limit=rl, timeout=bud.timeout())
+                except OSError as e:
+                    r = dict(recv=b'', error=str(e))
+                if r.get('timeout'):
+                    bud.anomaly('hung: history %s session %s' % (hname, name), hung=True)
+                # the daemon notices a hang-up at its next write; give it the time to get there
+                t0 = time.time()
+                while d.alive() and time.time() - t0 < (1.0 if mode in ('read_n', 'abandon') else 0.1):
+                    time.sleep(0.02)
+                    if mode in ('read_n', 'abandon') and d.status(timeout=1.0) == 1:
+                        break
+                alive = d.alive()
+                rs = real_sigign(d) if alive else None
+                ck.count(('history', hname, name), nontrivial=True)
+                steps.append(dict(session=name, daemon_alive=alive, sigpipe_ignored=rs, model_alive=m['alive'], model_sigpipe_ignored=m['sigign']))
+                hist_replay = dict(case='history', history=hname, engine=tag, steps=steps,
+                                   sessions=[dict(name=n_, input_hex=dt.hex()[:200000], mode=md, read_limit=rl_) for (n_, dt, md, rl_, _, _, _) in H[:len(steps)]])
+                # property level (every program of these histories is verified and harmless): the daemon must stay up, whatever the model says
+                if not alive:
+                    ck.fail('c18:history:%s:%s' % (hname, name), 'history %s: the daemon died (exit status %s) in session %s; every program in it is well-formed; the model %s' % (
+                                hname, d.exit_status(), name, 'predicts this death (a session-reachable call resets SIGPIPE: C18_no_session_resets_sigpipe is broken)' if not m['alive'] else 'says it survives'),
+                            dict(hist_replay, observed='daemon exit status %s' % d.exit_status(), expected='daemon alive', model_alive=m['alive'], daemon_stderr=d.stderr()[-300:]))
+                    break
+                if alive != m['alive']:
+                    ck.fail('c18:model:history:%s:%s' % (hname, name), 'history %s: after session %s the daemon is alive, the model says dead' % (hname, name),
+                            dict(hist_replay, correspondence='history vs extracted serve'))
+                    break
+                if rs is False:
+                    ck.fail('c18:sigpipe:history:%s:%s' % (hname, name), 'history %s: after session %s the daemon process no longer ignores SIGPIPE (SigIgn of /proc/<pid>/status); the model %s' % (
+                                hname, name, 'agrees (a session-reachable call resets it)' if not m['sigign'] else 'says it is still ignored'),
+                            dict(hist_replay, expected=True, expected_model=m['sigign'], observed_impl=rs, theorem='C18_no_session_resets_sigpipe / C18_sigpipe_needed'))
+                elif rs is not None and rs != m['sigign']:
+                    ck.fail('c18:model:sigpipe:history:%s:%s' % (hname, name), 'history %s: after session %s the process ignores SIGPIPE, the model says it does not' % (hname, name),
+                            dict(hist_replay, expected_model=m['sigign'], observed_impl=rs, correspondence='SigIgn vs extracted model'))
+                if prog is not None and mode == 'full' and alive:
+                    obs = V.expected_client_obs(V.canon_reply(r['recv']))
+                    if exit_only(obs, prog['obs']):
+                        fail_exit(ck, prog, obs, tag)
+                    elif obs != prog['obs']:
+                        ck.fail('c18:session:' + name, 'history %s: FFI program %s served through the daemon differs from standalone: exit %s vs %s, stdout %d vs %d bytes, stderr %r' % (
+                                    hname, prog['name'], obs[0], prog['obs'][0], len(obs[1]), len(prog['obs'][1]), obs[2][:120]),
+                                dict(hist_replay, program=prog['src'], expected=str(prog['obs'])[:600], observed=str(obs)[:600]))
+                if not alive:
+                    break
+            if d.alive():
+                pong = d.ping(timeout=5.0)
+                after = V.via_daemon(b, d, small['nvm'], timeout=bud.timeout())
+                ck.count(('history', hname, 'afterwards'), nontrivial=True)
+                if not pong or (after != small['obs'] and not exit_only(after, small['obs'])):
+                    ck.fail('c18:history:%s:afterwards' % hname, 'history %s: afterwards PING %s and a well-formed client %s' % (
+                                hname, 'answered' if pong else 'NOT answered', 'is served like standalone' if after == small['obs'] else 'is NOT served like standalone'),
+                            dict(case='history', history=hname, engine=tag, steps=steps, observed=str(after)[:400], expected=str(small['obs'])[:400]))
+                elif exit_only(after, small['obs']):
+                    fail_exit(ck, small, after, tag)
+        finally:
+            d.stop()
+        rep[hname] = steps
     return rep
 
 
@@ -558,22 +712,41 @@ def idle_timeout_case(ck, b, progs, bud, wd, tag='nano_vmd(plain) --idle-timeout
     return out
 
 
-def find_culprit(ck, b, S, env_extra=None):
-    for s in S:
+def find_culprit(ck, b, S, env_extra=None, allS=None):
+    """Search for the failing history: single sessions first, then an FFI session followed by a disconnecting one."""
+    def dies(seq):
         try:
             with V.Daemon(b, env_extra=env_extra) as d:
-                V.raw_session(d.sock, s['data'], mode=s['mode'], read_limit=s['read_limit'], timeout=30, chunks=s['chunks'], pause=s['pause'])
-                time.sleep(0.05)
+                for s in seq:
+                    try:
+                        V.raw_session(d.sock, s['data'], mode=s['mode'], read_limit=s['read_limit'], timeout=20, chunks=s['chunks'], pause=s['pause'])
+                    except OSError:
+                        pass
+                    time.sleep(0.05)
                 for _ in range(20):
                     if not d.alive():
-                        return s
-                    if d.ping():
+                        return True
+                    if d.ping(timeout=2.0):
                         break
                     time.sleep(0.05)
-                if not d.alive():
-                    return s
+                return not d.alive()
         except Exception:
-            continue
+            return False
+    t0 = time.time()
+    for s in S:
+        if time.time() - t0 > 60:
+            break
+        if dies([s]):
+            return s
+    A = allS or S
+    ffi = [s for s in A if s['prog'] is not None and s['prog']['kind'] == 'ffi' and s['mode'] == 'full'][:2]
+    gone = [s for s in A if s['mode'] in ('read_n', 'abandon') and s['prog'] is not None and s['prog']['kind'] == 'big'][:3]
+    for f in ffi:
+        for g in gone:
+            if time.time() - t0 > 120:
+                return None
+            if dies([f, g]):
+                return dict(g, name='%s then %s' % (f['name'], g['name']), data=g['data'], first=f)
     return None
 
 
@@ -624,7 +797,7 @@ def shutdown_case(ck, b, ref):
 
 def run(ck):
     b = ck.build('plain')
-    ck.gen(['gen_vmdconsts', 'gen_vmdfacts'])
+    ck.gen(['gen_vmdconsts', 'gen_vmdfacts', 'gen_sigsites'])
     ck.prove()
     ref = ck.nvref('c18')
     facts = dict(zip(*[iter(vlib.run_lines(ref, ['facts'])[0].split())] * 2))
@@ -636,14 +809,15 @@ def run(ck):
     wd = tempfile.mkdtemp(prefix='c18_', dir=vlib.BUILD)
     try:
         progs = V.Programs(b, wd)
-        kinds = ['lines', 'globals', 'strings', 'noeol', 'rterr', 'arrays', 'big', 'silent', 'mixed', 'big']
+        kinds = ['lines', 'globals', 'strings', 'noeol', 'rterr', 'arrays', 'big', 'silent', 'mixed', 'big', 'ffi', 'ffi']
         for i, k in enumerate(kinds):
-            progs.add(ck.rng, 'K%02d%s' % (i, 'abcdefghij'[i]), k)
+            progs.add(ck.rng, 'K%02d%s' % (i, 'abcdefghijkl'[i]), k)
         ck.extra['programs'] = [dict(name=p['name'], stdout_bytes=len(p['obs'][1]), exit=p['obs'][0], stderr=p['obs'][2].decode('utf-8', 'replace')[:80]) for p in progs.items]
         bud = V.Budget(t_first=45.0, t_after=15.0, k=3, wall=200.0 if not ck.thorough else 1000.0)
         ck.extra['live_plain'] = run_live(ck, b, ref, progs, 'nano_vmd(plain)', bud)
         ck.extra['counter_tie'] = counter_tie(ck, b, ref, progs, bud)
         ck.extra['idle_timeout_case'] = idle_timeout_case(ck, b, progs, bud, wd)
+        ck.extra['ffi_histories'] = ffi_histories(ck, b, ref, progs, bud, wd)
         if ck.thorough:
             ba = ck.build('asan')
             ck.extra['live_asan'] = run_live(ck, ba, ref, progs, 'nano_vmd(asan)', bud,
@@ -730,7 +904,7 @@ def run(ck):
 
 
 def replay(ck, d):
-    b = ck.build('plain'); ck.gen(['gen_vmdconsts', 'gen_vmdfacts'])
+    b = ck.build('plain'); ck.gen(['gen_vmdconsts', 'gen_vmdfacts', 'gen_sigsites'])
     ref = ck.nvref('c18')
     kind = d.get('case')
     if kind == 'probe':
@@ -745,6 +919,8 @@ def replay(ck, d):
         data = V.frame(V.T_LOAD_EXEC, blob) if blob is not None else bytes.fromhex(d['culprit']['input_hex'])
         mode = 'full' if blob is not None else d['culprit']['mode']
         with V.Daemon(b) as dm:
+            if (d.get('culprit') or {}).get('first_input_hex'):
+                V.raw_session(dm.sock, bytes.fromhex(d['culprit']['first_input_hex']), timeout=30)
             r = V.raw_session(dm.sock, data, mode=mode, read_limit=(d.get('culprit') or {}).get('read_limit'), timeout=30)
             time.sleep(0.3)
             alive = dm.alive(); rc = dm.exit_status()
@@ -759,6 +935,41 @@ def replay(ck, d):
         print('impl reply :', r['recv'].hex()[:400], '(daemon alive=%s)' % alive); print('model      :', m[:400])
         same = alive and ('sent ' + (r['recv'].hex() or '-') + ' ') in m + ' '
         print('not reproduced' if same else 'REPRODUCED (or exec session: compare canonical forms by a full run)'); return 0 if same else 1
+    if kind == 'history':
+        with V.Daemon(b) as dm:
+            for x in d.get('sessions', []):
+                try:
+                    V.raw_session(dm.sock, bytes.fromhex(x['input_hex']), mode=x['mode'], read_limit=x.get('read_limit'), timeout=30)
+                except OSError:
+                    pass
+                time.sleep(0.5)
+                print('after %-50s daemon alive=%s SIGPIPE ignored=%s' % (x['name'], dm.alive(), real_sigign(dm) if dm.alive() else None))
+                if not dm.alive():
+                    break
+            alive = dm.alive(); ign = real_sigign(dm) if alive else None; rc = dm.exit_status()
+        print('daemon exit status:', rc)
+        rep = (not alive) or ign is False
+        print('REPRODUCED' if rep else 'not reproduced'); return 1 if rep else 0
+    if kind == 'sigpipe':
+        with V.Daemon(b) as dm:
+            before = real_sigign(dm)
+            V.raw_session(dm.sock, bytes.fromhex(d.get('input_hex') or ''), mode=d.get('mode', 'full'), read_limit=d.get('read_limit'), timeout=30)
+            time.sleep(0.3)
+            after = real_sigign(dm) if dm.alive() else None
+        print('SIGPIPE ignored before the session: %s, after: %s' % (before, after))
+        rep = after is not True
+        print('REPRODUCED' if rep else 'not reproduced'); return 1 if rep else 0
+    if kind == 'exit-status':
+        wd = tempfile.mkdtemp(prefix='c18r_', dir=vlib.BUILD)
+        try:
+            nvm, diag = V.compile_nvm(b, d['program'], wd, 'x')
+            st = V.standalone(b, nvm)
+            with V.Daemon(b) as dm:
+                o = V.via_daemon(b, dm, nvm)
+        finally:
+            shutil.rmtree(wd, ignore_errors=True)
+        print('standalone exit %s, via daemon exit %s' % (st[0], o[0]))
+        print('REPRODUCED' if o != st else 'not reproduced'); return 1 if o != st else 0
     if kind == 'counter':
         data = bytes.fromhex(d.get('input_hex') or '')
         with V.Daemon(b) as dm:
